@@ -2931,7 +2931,10 @@ fn main() {
     // failing input ("search", out dir ...-search).  That run must stay short in the quick tier: it gets its
     // own sizing (longer races and loops than quick, far less enumeration than thorough).
     let search = args.thorough() && args.out.to_string_lossy().ends_with("-search");
-    let thorough = args.thorough() && !search;
+    // `--lite`: quick sizing whatever the tier (the release-profile run of the thorough tier)
+    let lite = args.has("--lite");
+    let thorough = args.thorough() && !search && !lite;
+    let search = search && !lite;
     let replay = args.replay_ops();
     let cfg = Cfg {
         loop_budget: Duration::from_millis(if replay.is_some() { 3000 } else if search { 1500 } else if thorough { 1000 } else { 120 }),
